@@ -199,7 +199,7 @@ def vec_rule(rep, prog, cfg):
     # (a short reply must be an error, as in the tuple impls, not a shorter vector)
     if len(zips) == 1:
         from ..common import switch_atom
-        from ..cfg import Cfg, reach
+        pass  # (Cfg, reach are module-level imports)
         g = Cfg(b)
         eq_edges = []
         for bb in range(len(b.blocks)):
